@@ -1,76 +1,157 @@
 // auto-generated: "lalrpop 0.23.1"
-// sha3: fe4a667f04baa6b49205b9c8305cc28184bb0eaa2c5283403a735af440230445
+// sha3: 03522b3992bb31bc92a88beb257286945606c0260f7bdb5443a35a8e1959ceb9
 use crate::rt::*;
 #[allow(unused_extern_crates)]
-extern crate lalrpop_util as ___lalrpop_util;
+extern crate lalrpop_util as __lalrpop_util;
 #[allow(unused_imports)]
-use self::___lalrpop_util::state_machine as ___state_machine;
+use self::__lalrpop_util::state_machine as __state_machine;
 #[allow(unused_extern_crates)]
 extern crate alloc;
 
 #[rustfmt::skip]
 #[allow(explicit_outlives_requirements, non_snake_case, non_camel_case_types, unused_mut, unused_variables, unused_imports, unused_parens, clippy::needless_lifetimes, clippy::type_complexity, clippy::needless_return, clippy::too_many_arguments, clippy::match_single_binding, clippy::clone_on_copy, clippy::unit_arg)]
-mod ___parse_____start {
+mod __parse__S {
 
     use crate::rt::*;
     #[allow(unused_extern_crates)]
-    extern crate lalrpop_util as ___lalrpop_util;
+    extern crate lalrpop_util as __lalrpop_util;
     #[allow(unused_imports)]
-    use self::___lalrpop_util::state_machine as ___state_machine;
+    use self::__lalrpop_util::state_machine as __state_machine;
     #[allow(unused_extern_crates)]
     extern crate alloc;
-    use super::___ToTriple;
+    use super::__ToTriple;
     #[allow(dead_code)]
-    pub(crate) enum ___Symbol<>
+    pub(crate) enum __Symbol<>
      {
         Variant0(Tok),
         Variant1(i64),
         Variant2(Tree),
     }
-    const ___ACTION: &[i8] = &[
+    const __ACTION: &[i8] = &[
         // State 0
-        2, 4,
+        14, 15, 0, 3,
         // State 1
-        2, 4,
+        14, 15, 0, 0,
         // State 2
-        0, 0,
+        14, 15, 0, 0,
         // State 3
-        0, 0,
+        14, 15, 0, 0,
         // State 4
-        0, 0,
+        14, 15, 0, 0,
+        // State 5
+        14, 15, 0, 0,
+        // State 6
+        14, 15, 0, 0,
+        // State 7
+        14, 15, 0, 0,
+        // State 8
+        14, 15, 0, 0,
+        // State 9
+        14, 15, 0, 0,
+        // State 10
+        14, 15, 0, 0,
+        // State 11
+        14, 15, 0, 0,
+        // State 12
+        0, 0, 0, 0,
+        // State 13
+        0, 17, 0, 0,
+        // State 14
+        -8, -8, -8, -8,
+        // State 15
+        0, 0, 5, 0,
+        // State 16
+        -7, -7, -7, -7,
+        // State 17
+        0, 0, 7, 0,
+        // State 18
+        0, 0, 0, 0,
+        // State 19
+        0, 0, 11, 0,
+        // State 20
+        0, 0, 0, 22,
+        // State 21
+        0, 0, 0, 0,
     ];
-    fn ___action(state: i8, integer: usize) -> i8 {
-        ___ACTION[(state as usize) * 2 + integer]
+    fn __action(state: i8, integer: usize) -> i8 {
+        __ACTION[(state as usize) * 4 + integer]
     }
-    const ___EOF_ACTION: &[i8] = &[
+    const __EOF_ACTION: &[i8] = &[
         // State 0
         0,
         // State 1
         0,
         // State 2
-        -3,
+        0,
         // State 3
-        -5,
+        0,
         // State 4
+        0,
+        // State 5
+        0,
+        // State 6
+        0,
+        // State 7
+        0,
+        // State 8
+        0,
+        // State 9
+        0,
+        // State 10
+        0,
+        // State 11
+        0,
+        // State 12
+        -9,
+        // State 13
+        0,
+        // State 14
+        -8,
+        // State 15
+        0,
+        // State 16
+        -7,
+        // State 17
+        0,
+        // State 18
         -4,
+        // State 19
+        0,
+        // State 20
+        0,
+        // State 21
+        -3,
     ];
-    fn ___goto(state: i8, nt: usize) -> i8 {
+    fn __goto(state: i8, nt: usize) -> i8 {
         match nt {
-            3 => match state {
-                1 => 4,
-                _ => 2,
+            2 => 12,
+            5 => match state {
+                2 => 3,
+                4 => 5,
+                5 => 7,
+                6 => 8,
+                7 => 9,
+                10 => 11,
+                1 => 15,
+                3 => 17,
+                8 => 18,
+                9 => 19,
+                11 => 20,
+                _ => 1,
             },
             _ => 0,
         }
     }
     #[allow(clippy::needless_raw_string_hashes)]
-    const ___TERMINAL: &[&str] = &[
+    const __TERMINAL: &[&str] = &[
         r###""a""###,
         r###""b""###,
+        r###""c""###,
+        r###""d""###,
     ];
-    fn ___expected_tokens(___state: i8) -> alloc::vec::Vec<alloc::string::String> {
-        ___TERMINAL.iter().enumerate().filter_map(|(index, terminal)| {
-            let next_state = ___action(___state, index);
+    fn __expected_tokens(__state: i8) -> alloc::vec::Vec<alloc::string::String> {
+        __TERMINAL.iter().enumerate().filter_map(|(index, terminal)| {
+            let next_state = __action(__state, index);
             if next_state == 0 {
                 None
             } else {
@@ -78,33 +159,33 @@ mod ___parse_____start {
             }
         }).collect()
     }
-    fn ___expected_tokens_from_states<
+    fn __expected_tokens_from_states<
     >(
-        ___states: &[i8],
+        __states: &[i8],
         _: core::marker::PhantomData<()>,
     ) -> alloc::vec::Vec<alloc::string::String>
     {
-        ___TERMINAL.iter().enumerate().filter_map(|(index, terminal)| {
-            if ___accepts(None, ___states, Some(index), core::marker::PhantomData::<()>) {
+        __TERMINAL.iter().enumerate().filter_map(|(index, terminal)| {
+            if __accepts(None, __states, Some(index), core::marker::PhantomData::<()>) {
                 Some(alloc::string::ToString::to_string(terminal))
             } else {
                 None
             }
         }).collect()
     }
-    struct ___StateMachine<>
+    struct __StateMachine<>
     where 
     {
-        ___phantom: core::marker::PhantomData<()>,
+        __phantom: core::marker::PhantomData<()>,
     }
-    impl<> ___state_machine::ParserDefinition for ___StateMachine<>
+    impl<> __state_machine::ParserDefinition for __StateMachine<>
     where 
     {
         type Location = i64;
         type Error = u64;
         type Token = Tok;
         type TokenIndex = usize;
-        type Symbol = ___Symbol<>;
+        type Symbol = __Symbol<>;
         type Success = Tree;
         type StateIndex = i8;
         type Action = i8;
@@ -123,39 +204,39 @@ mod ___parse_____start {
 
         #[inline]
         fn token_to_index(&self, token: &Self::Token) -> Option<usize> {
-            ___token_to_integer(token, core::marker::PhantomData::<()>)
+            __token_to_integer(token, core::marker::PhantomData::<()>)
         }
 
         #[inline]
         fn action(&self, state: i8, integer: usize) -> i8 {
-            ___action(state, integer)
+            __action(state, integer)
         }
 
         #[inline]
         fn error_action(&self, state: i8) -> i8 {
-            ___action(state, 2 - 1)
+            __action(state, 4 - 1)
         }
 
         #[inline]
         fn eof_action(&self, state: i8) -> i8 {
-            ___EOF_ACTION[state as usize]
+            __EOF_ACTION[state as usize]
         }
 
         #[inline]
         fn goto(&self, state: i8, nt: usize) -> i8 {
-            ___goto(state, nt)
+            __goto(state, nt)
         }
 
         fn token_to_symbol(&self, token_index: usize, token: Self::Token) -> Self::Symbol {
-            ___token_to_symbol(token_index, token, core::marker::PhantomData::<()>)
+            __token_to_symbol(token_index, token, core::marker::PhantomData::<()>)
         }
 
         fn expected_tokens(&self, state: i8) -> alloc::vec::Vec<alloc::string::String> {
-            ___expected_tokens(state)
+            __expected_tokens(state)
         }
 
         fn expected_tokens_from_states(&self, states: &[i8]) -> alloc::vec::Vec<alloc::string::String> {
-            ___expected_tokens_from_states(states, core::marker::PhantomData::<()>)
+            __expected_tokens_from_states(states, core::marker::PhantomData::<()>)
         }
 
         #[inline]
@@ -166,7 +247,7 @@ mod ___parse_____start {
         #[inline]
         fn error_recovery_symbol(
             &self,
-            recovery: ___state_machine::ErrorRecovery<Self>,
+            recovery: __state_machine::ErrorRecovery<Self>,
         ) -> Self::Symbol {
             panic!("error recovery not enabled for this grammar")
         }
@@ -176,9 +257,9 @@ mod ___parse_____start {
             action: i8,
             start_location: Option<&Self::Location>,
             states: &mut alloc::vec::Vec<i8>,
-            symbols: &mut alloc::vec::Vec<___state_machine::SymbolTriple<Self>>,
-        ) -> Option<___state_machine::ParseResult<Self>> {
-            ___reduce(
+            symbols: &mut alloc::vec::Vec<__state_machine::SymbolTriple<Self>>,
+        ) -> Option<__state_machine::ParseResult<Self>> {
+            __reduce(
                 action,
                 start_location,
                 states,
@@ -187,425 +268,893 @@ mod ___parse_____start {
             )
         }
 
-        fn simulate_reduce(&self, action: i8) -> ___state_machine::SimulatedReduce<Self> {
-            ___simulate_reduce(action, core::marker::PhantomData::<()>)
+        fn simulate_reduce(&self, action: i8) -> __state_machine::SimulatedReduce<Self> {
+            __simulate_reduce(action, core::marker::PhantomData::<()>)
         }
     }
-    fn ___token_to_integer<
+    fn __token_to_integer<
     >(
-        ___token: &Tok,
+        __token: &Tok,
         _: core::marker::PhantomData<()>,
     ) -> Option<usize>
     {
         #[warn(unused_variables)]
-        match ___token {
+        match __token {
             Tok('a', _, _, _) if true => Some(0),
             Tok('b', _, _, _) if true => Some(1),
+            Tok('c', _, _, _) if true => Some(2),
+            Tok('d', _, _, _) if true => Some(3),
             _ => None,
         }
     }
-    fn ___token_to_symbol<
+    fn __token_to_symbol<
     >(
-        ___token_index: usize,
-        ___token: Tok,
+        __token_index: usize,
+        __token: Tok,
         _: core::marker::PhantomData<()>,
-    ) -> ___Symbol<>
+    ) -> __Symbol<>
     {
-        #[allow(clippy::manual_range_patterns)]match ___token_index {
-            0 | 1 => ___Symbol::Variant0(___token),
+        #[allow(clippy::manual_range_patterns)]match __token_index {
+            0 | 1 | 2 | 3 => __Symbol::Variant0(__token),
             _ => unreachable!(),
         }
     }
-    fn ___simulate_reduce<
+    fn __simulate_reduce<
     >(
-        ___reduce_index: i8,
+        __reduce_index: i8,
         _: core::marker::PhantomData<()>,
-    ) -> ___state_machine::SimulatedReduce<___StateMachine<>>
+    ) -> __state_machine::SimulatedReduce<__StateMachine<>>
     {
-        match ___reduce_index {
+        match __reduce_index {
             0 => {
-                ___state_machine::SimulatedReduce::Reduce {
+                __state_machine::SimulatedReduce::Reduce {
                     states_to_pop: 0,
                     nonterminal_produced: 0,
                 }
             }
             1 => {
-                ___state_machine::SimulatedReduce::Reduce {
+                __state_machine::SimulatedReduce::Reduce {
                     states_to_pop: 0,
                     nonterminal_produced: 1,
                 }
             }
-            2 => ___state_machine::SimulatedReduce::Accept,
+            2 => {
+                __state_machine::SimulatedReduce::Reduce {
+                    states_to_pop: 11,
+                    nonterminal_produced: 2,
+                }
+            }
             3 => {
-                ___state_machine::SimulatedReduce::Reduce {
-                    states_to_pop: 2,
-                    nonterminal_produced: 3,
+                __state_machine::SimulatedReduce::Reduce {
+                    states_to_pop: 6,
+                    nonterminal_produced: 2,
                 }
             }
             4 => {
-                ___state_machine::SimulatedReduce::Reduce {
-                    states_to_pop: 1,
+                __state_machine::SimulatedReduce::Reduce {
+                    states_to_pop: 5,
                     nonterminal_produced: 3,
                 }
             }
-            _ => panic!("invalid reduction index {___reduce_index}")
+            5 => {
+                __state_machine::SimulatedReduce::Reduce {
+                    states_to_pop: 2,
+                    nonterminal_produced: 4,
+                }
+            }
+            6 => {
+                __state_machine::SimulatedReduce::Reduce {
+                    states_to_pop: 2,
+                    nonterminal_produced: 5,
+                }
+            }
+            7 => {
+                __state_machine::SimulatedReduce::Reduce {
+                    states_to_pop: 1,
+                    nonterminal_produced: 5,
+                }
+            }
+            8 => __state_machine::SimulatedReduce::Accept,
+            _ => panic!("invalid reduction index {__reduce_index}")
         }
     }
-    pub struct __startParser {
+    pub struct SParser {
         _priv: (),
     }
 
-    impl Default for __startParser { fn default() -> Self { Self::new() } }
-    impl __startParser {
-        pub fn new() -> __startParser {
-            __startParser {
+    impl Default for SParser { fn default() -> Self { Self::new() } }
+    impl SParser {
+        pub fn new() -> SParser {
+            SParser {
                 _priv: (),
             }
         }
 
         #[allow(dead_code)]
         pub fn parse<
-            ___TOKEN: ___ToTriple<>,
-            ___TOKENS: IntoIterator<Item=___TOKEN>,
+            __TOKEN: __ToTriple<>,
+            __TOKENS: IntoIterator<Item=__TOKEN>,
         >(
             &self,
-            ___tokens0: ___TOKENS,
-        ) -> Result<Tree, ___lalrpop_util::ParseError<i64, Tok, u64>>
+            __tokens0: __TOKENS,
+        ) -> Result<Tree, __lalrpop_util::ParseError<i64, Tok, u64>>
         {
-            let ___tokens = ___tokens0.into_iter();
-            let mut ___tokens = ___tokens.map(|t| ___ToTriple::to_triple(t));
-            ___state_machine::Parser::drive(
-                ___StateMachine {
-                    ___phantom: core::marker::PhantomData::<()>,
+            let __tokens = __tokens0.into_iter();
+            let mut __tokens = __tokens.map(|t| __ToTriple::to_triple(t));
+            __state_machine::Parser::drive(
+                __StateMachine {
+                    __phantom: core::marker::PhantomData::<()>,
                 },
-                ___tokens,
+                __tokens,
             )
         }
     }
-    fn ___accepts<
+    fn __accepts<
     >(
-        ___error_state: Option<i8>,
-        ___states: &[i8],
-        ___opt_integer: Option<usize>,
+        __error_state: Option<i8>,
+        __states: &[i8],
+        __opt_integer: Option<usize>,
         _: core::marker::PhantomData<()>,
     ) -> bool
     {
-        let mut ___states = ___states.to_vec();
-        ___states.extend(___error_state);
+        let mut __states = __states.to_vec();
+        __states.extend(__error_state);
         loop {
-            let mut ___states_len = ___states.len();
-            let ___top = ___states[___states_len - 1];
-            let ___action = match ___opt_integer {
-                None => ___EOF_ACTION[___top as usize],
-                Some(___integer) => ___action(___top, ___integer),
+            let mut __states_len = __states.len();
+            let __top = __states[__states_len - 1];
+            let __action = match __opt_integer {
+                None => __EOF_ACTION[__top as usize],
+                Some(__integer) => __action(__top, __integer),
             };
-            if ___action == 0 { return false; }
-            if ___action > 0 { return true; }
-            let (___to_pop, ___nt) = match ___simulate_reduce(-(___action + 1), core::marker::PhantomData::<()>) {
-                ___state_machine::SimulatedReduce::Reduce {
+            if __action == 0 { return false; }
+            if __action > 0 { return true; }
+            let (__to_pop, __nt) = match __simulate_reduce(-(__action + 1), core::marker::PhantomData::<()>) {
+                __state_machine::SimulatedReduce::Reduce {
                     states_to_pop, nonterminal_produced
                 } => (states_to_pop, nonterminal_produced),
-                ___state_machine::SimulatedReduce::Accept => return true,
+                __state_machine::SimulatedReduce::Accept => return true,
             };
-            ___states_len -= ___to_pop;
-            ___states.truncate(___states_len);
-            let ___top = ___states[___states_len - 1];
-            let ___next_state = ___goto(___top, ___nt);
-            ___states.push(___next_state);
+            __states_len -= __to_pop;
+            __states.truncate(__states_len);
+            let __top = __states[__states_len - 1];
+            let __next_state = __goto(__top, __nt);
+            __states.push(__next_state);
         }
     }
-    fn ___reduce<
+    fn __reduce<
     >(
-        ___action: i8,
-        ___lookahead_start: Option<&i64>,
-        ___states: &mut alloc::vec::Vec<i8>,
-        ___symbols: &mut alloc::vec::Vec<(i64,___Symbol<>,i64)>,
+        __action: i8,
+        __lookahead_start: Option<&i64>,
+        __states: &mut alloc::vec::Vec<i8>,
+        __symbols: &mut alloc::vec::Vec<(i64,__Symbol<>,i64)>,
         _: core::marker::PhantomData<()>,
-    ) -> Option<Result<Tree,___lalrpop_util::ParseError<i64, Tok, u64>>>
+    ) -> Option<Result<Tree,__lalrpop_util::ParseError<i64, Tok, u64>>>
     {
-        let (___pop_states, ___nonterminal) = match ___action {
+        let (__pop_states, __nonterminal) = match __action {
             0 => {
-                ___reduce0(___lookahead_start, ___symbols, core::marker::PhantomData::<()>)
+                __reduce0(__lookahead_start, __symbols, core::marker::PhantomData::<()>)
             }
             1 => {
-                ___reduce1(___lookahead_start, ___symbols, core::marker::PhantomData::<()>)
+                __reduce1(__lookahead_start, __symbols, core::marker::PhantomData::<()>)
             }
             2 => {
-                // _____start = __start => ActionFn(0);
-                let ___sym0 = ___pop_Variant2(___symbols);
-                let ___start = ___sym0.0.clone();
-                let ___end = ___sym0.2.clone();
-                let ___nt = super::___action0::<>(___sym0);
-                return Some(Ok(___nt));
+                __reduce2(__lookahead_start, __symbols, core::marker::PhantomData::<()>)
             }
             3 => {
-                ___reduce3(___lookahead_start, ___symbols, core::marker::PhantomData::<()>)
+                __reduce3(__lookahead_start, __symbols, core::marker::PhantomData::<()>)
             }
             4 => {
-                ___reduce4(___lookahead_start, ___symbols, core::marker::PhantomData::<()>)
+                __reduce4(__lookahead_start, __symbols, core::marker::PhantomData::<()>)
             }
-            _ => panic!("invalid action code {___action}")
+            5 => {
+                __reduce5(__lookahead_start, __symbols, core::marker::PhantomData::<()>)
+            }
+            6 => {
+                __reduce6(__lookahead_start, __symbols, core::marker::PhantomData::<()>)
+            }
+            7 => {
+                __reduce7(__lookahead_start, __symbols, core::marker::PhantomData::<()>)
+            }
+            8 => {
+                // __S = S => ActionFn(0);
+                let __sym0 = __pop_Variant2(__symbols);
+                let __start = __sym0.0.clone();
+                let __end = __sym0.2.clone();
+                let __nt = super::__action0::<>(__sym0);
+                return Some(Ok(__nt));
+            }
+            _ => panic!("invalid action code {__action}")
         };
-        let ___states_len = ___states.len();
-        ___states.truncate(___states_len - ___pop_states);
-        let ___state = *___states.last().unwrap();
-        let ___next_state = ___goto(___state, ___nonterminal);
-        ___states.push(___next_state);
+        let __states_len = __states.len();
+        __states.truncate(__states_len - __pop_states);
+        let __state = *__states.last().unwrap();
+        let __next_state = __goto(__state, __nonterminal);
+        __states.push(__next_state);
         None
     }
     #[inline(never)]
-    fn ___symbol_type_mismatch() -> ! {
+    fn __symbol_type_mismatch() -> ! {
         panic!("symbol type mismatch")
     }
-    fn ___pop_Variant0<
+    fn __pop_Variant0<
     >(
-        ___symbols: &mut alloc::vec::Vec<(i64,___Symbol<>,i64)>
+        __symbols: &mut alloc::vec::Vec<(i64,__Symbol<>,i64)>
     ) -> (i64, Tok, i64)
      {
-        match ___symbols.pop() {
-            Some((___l, ___Symbol::Variant0(___v), ___r)) => (___l, ___v, ___r),
-            _ => ___symbol_type_mismatch()
+        match __symbols.pop() {
+            Some((__l, __Symbol::Variant0(__v), __r)) => (__l, __v, __r),
+            _ => __symbol_type_mismatch()
         }
     }
-    fn ___pop_Variant2<
+    fn __pop_Variant2<
     >(
-        ___symbols: &mut alloc::vec::Vec<(i64,___Symbol<>,i64)>
+        __symbols: &mut alloc::vec::Vec<(i64,__Symbol<>,i64)>
     ) -> (i64, Tree, i64)
      {
-        match ___symbols.pop() {
-            Some((___l, ___Symbol::Variant2(___v), ___r)) => (___l, ___v, ___r),
-            _ => ___symbol_type_mismatch()
+        match __symbols.pop() {
+            Some((__l, __Symbol::Variant2(__v), __r)) => (__l, __v, __r),
+            _ => __symbol_type_mismatch()
         }
     }
-    fn ___pop_Variant1<
+    fn __pop_Variant1<
     >(
-        ___symbols: &mut alloc::vec::Vec<(i64,___Symbol<>,i64)>
+        __symbols: &mut alloc::vec::Vec<(i64,__Symbol<>,i64)>
     ) -> (i64, i64, i64)
      {
-        match ___symbols.pop() {
-            Some((___l, ___Symbol::Variant1(___v), ___r)) => (___l, ___v, ___r),
-            _ => ___symbol_type_mismatch()
+        match __symbols.pop() {
+            Some((__l, __Symbol::Variant1(__v), __r)) => (__l, __v, __r),
+            _ => __symbol_type_mismatch()
         }
     }
-    fn ___reduce0<
+    fn __reduce0<
     >(
-        ___lookahead_start: Option<&i64>,
-        ___symbols: &mut alloc::vec::Vec<(i64,___Symbol<>,i64)>,
+        __lookahead_start: Option<&i64>,
+        __symbols: &mut alloc::vec::Vec<(i64,__Symbol<>,i64)>,
         _: core::marker::PhantomData<()>,
     ) -> (usize, usize)
     {
-        // @L =  => ActionFn(4);
-        let ___start = ___lookahead_start.cloned().or_else(|| ___symbols.last().map(|s| s.2.clone())).unwrap_or_default();
-        let ___end = ___start.clone();
-        let ___nt = super::___action4::<>(&___start, &___end);
-        ___symbols.push((___start, ___Symbol::Variant1(___nt), ___end));
+        // @L =  => ActionFn(8);
+        let __start = __lookahead_start.cloned().or_else(|| __symbols.last().map(|s| s.2.clone())).unwrap_or_default();
+        let __end = __start.clone();
+        let __nt = super::__action8::<>(&__start, &__end);
+        __symbols.push((__start, __Symbol::Variant1(__nt), __end));
         (0, 0)
     }
-    fn ___reduce1<
+    fn __reduce1<
     >(
-        ___lookahead_start: Option<&i64>,
-        ___symbols: &mut alloc::vec::Vec<(i64,___Symbol<>,i64)>,
+        __lookahead_start: Option<&i64>,
+        __symbols: &mut alloc::vec::Vec<(i64,__Symbol<>,i64)>,
         _: core::marker::PhantomData<()>,
     ) -> (usize, usize)
     {
-        // @R =  => ActionFn(3);
-        let ___start = ___lookahead_start.cloned().or_else(|| ___symbols.last().map(|s| s.2.clone())).unwrap_or_default();
-        let ___end = ___start.clone();
-        let ___nt = super::___action3::<>(&___start, &___end);
-        ___symbols.push((___start, ___Symbol::Variant1(___nt), ___end));
+        // @R =  => ActionFn(7);
+        let __start = __lookahead_start.cloned().or_else(|| __symbols.last().map(|s| s.2.clone())).unwrap_or_default();
+        let __end = __start.clone();
+        let __nt = super::__action7::<>(&__start, &__end);
+        __symbols.push((__start, __Symbol::Variant1(__nt), __end));
         (0, 1)
     }
-    fn ___reduce3<
+    fn __reduce2<
     >(
-        ___lookahead_start: Option<&i64>,
-        ___symbols: &mut alloc::vec::Vec<(i64,___Symbol<>,i64)>,
+        __lookahead_start: Option<&i64>,
+        __symbols: &mut alloc::vec::Vec<(i64,__Symbol<>,i64)>,
         _: core::marker::PhantomData<()>,
     ) -> (usize, usize)
     {
-        // __start = "a", __start => ActionFn(7);
-        assert!(___symbols.len() >= 2);
-        let ___sym1 = ___pop_Variant2(___symbols);
-        let ___sym0 = ___pop_Variant0(___symbols);
-        let ___start = ___sym0.0.clone();
-        let ___end = ___sym1.2.clone();
-        let ___nt = super::___action7::<>(___sym0, ___sym1);
-        ___symbols.push((___start, ___Symbol::Variant2(___nt), ___end));
-        (2, 3)
+        // S = Z, Z, "c", Z, Z, Z, Z, "c", Z, Z, "d" => ActionFn(22);
+        assert!(__symbols.len() >= 11);
+        let __sym10 = __pop_Variant0(__symbols);
+        let __sym9 = __pop_Variant2(__symbols);
+        let __sym8 = __pop_Variant2(__symbols);
+        let __sym7 = __pop_Variant0(__symbols);
+        let __sym6 = __pop_Variant2(__symbols);
+        let __sym5 = __pop_Variant2(__symbols);
+        let __sym4 = __pop_Variant2(__symbols);
+        let __sym3 = __pop_Variant2(__symbols);
+        let __sym2 = __pop_Variant0(__symbols);
+        let __sym1 = __pop_Variant2(__symbols);
+        let __sym0 = __pop_Variant2(__symbols);
+        let __start = __sym0.0.clone();
+        let __end = __sym10.2.clone();
+        let __nt = super::__action22::<>(__sym0, __sym1, __sym2, __sym3, __sym4, __sym5, __sym6, __sym7, __sym8, __sym9, __sym10);
+        __symbols.push((__start, __Symbol::Variant2(__nt), __end));
+        (11, 2)
     }
-    fn ___reduce4<
+    fn __reduce3<
     >(
-        ___lookahead_start: Option<&i64>,
-        ___symbols: &mut alloc::vec::Vec<(i64,___Symbol<>,i64)>,
+        __lookahead_start: Option<&i64>,
+        __symbols: &mut alloc::vec::Vec<(i64,__Symbol<>,i64)>,
         _: core::marker::PhantomData<()>,
     ) -> (usize, usize)
     {
-        // __start = "b" => ActionFn(8);
-        let ___sym0 = ___pop_Variant0(___symbols);
-        let ___start = ___sym0.0.clone();
-        let ___end = ___sym0.2.clone();
-        let ___nt = super::___action8::<>(___sym0);
-        ___symbols.push((___start, ___Symbol::Variant2(___nt), ___end));
-        (1, 3)
+        // S = "d", Z, Z, "c", Z, Z => ActionFn(23);
+        assert!(__symbols.len() >= 6);
+        let __sym5 = __pop_Variant2(__symbols);
+        let __sym4 = __pop_Variant2(__symbols);
+        let __sym3 = __pop_Variant0(__symbols);
+        let __sym2 = __pop_Variant2(__symbols);
+        let __sym1 = __pop_Variant2(__symbols);
+        let __sym0 = __pop_Variant0(__symbols);
+        let __start = __sym0.0.clone();
+        let __end = __sym5.2.clone();
+        let __nt = super::__action23::<>(__sym0, __sym1, __sym2, __sym3, __sym4, __sym5);
+        __symbols.push((__start, __Symbol::Variant2(__nt), __end));
+        (6, 2)
+    }
+    fn __reduce4<
+    >(
+        __lookahead_start: Option<&i64>,
+        __symbols: &mut alloc::vec::Vec<(i64,__Symbol<>,i64)>,
+        _: core::marker::PhantomData<()>,
+    ) -> (usize, usize)
+    {
+        // X = Z, Z, "c", Z, Z => ActionFn(21);
+        assert!(__symbols.len() >= 5);
+        let __sym4 = __pop_Variant2(__symbols);
+        let __sym3 = __pop_Variant2(__symbols);
+        let __sym2 = __pop_Variant0(__symbols);
+        let __sym1 = __pop_Variant2(__symbols);
+        let __sym0 = __pop_Variant2(__symbols);
+        let __start = __sym0.0.clone();
+        let __end = __sym4.2.clone();
+        let __nt = super::__action21::<>(__sym0, __sym1, __sym2, __sym3, __sym4);
+        __symbols.push((__start, __Symbol::Variant2(__nt), __end));
+        (5, 3)
+    }
+    fn __reduce5<
+    >(
+        __lookahead_start: Option<&i64>,
+        __symbols: &mut alloc::vec::Vec<(i64,__Symbol<>,i64)>,
+        _: core::marker::PhantomData<()>,
+    ) -> (usize, usize)
+    {
+        // Y = Z, Z => ActionFn(18);
+        assert!(__symbols.len() >= 2);
+        let __sym1 = __pop_Variant2(__symbols);
+        let __sym0 = __pop_Variant2(__symbols);
+        let __start = __sym0.0.clone();
+        let __end = __sym1.2.clone();
+        let __nt = super::__action18::<>(__sym0, __sym1);
+        __symbols.push((__start, __Symbol::Variant2(__nt), __end));
+        (2, 4)
+    }
+    fn __reduce6<
+    >(
+        __lookahead_start: Option<&i64>,
+        __symbols: &mut alloc::vec::Vec<(i64,__Symbol<>,i64)>,
+        _: core::marker::PhantomData<()>,
+    ) -> (usize, usize)
+    {
+        // Z = "a", "b" => ActionFn(19);
+        assert!(__symbols.len() >= 2);
+        let __sym1 = __pop_Variant0(__symbols);
+        let __sym0 = __pop_Variant0(__symbols);
+        let __start = __sym0.0.clone();
+        let __end = __sym1.2.clone();
+        let __nt = super::__action19::<>(__sym0, __sym1);
+        __symbols.push((__start, __Symbol::Variant2(__nt), __end));
+        (2, 5)
+    }
+    fn __reduce7<
+    >(
+        __lookahead_start: Option<&i64>,
+        __symbols: &mut alloc::vec::Vec<(i64,__Symbol<>,i64)>,
+        _: core::marker::PhantomData<()>,
+    ) -> (usize, usize)
+    {
+        // Z = "b" => ActionFn(20);
+        let __sym0 = __pop_Variant0(__symbols);
+        let __start = __sym0.0.clone();
+        let __end = __sym0.2.clone();
+        let __nt = super::__action20::<>(__sym0);
+        __symbols.push((__start, __Symbol::Variant2(__nt), __end));
+        (1, 5)
     }
 }
 #[allow(unused_imports)]
-pub use self::___parse_____start::__startParser;
+pub use self::__parse__S::SParser;
 
 #[allow(clippy::too_many_arguments, clippy::needless_lifetimes, clippy::just_underscores_and_digits, clippy::extra_unused_type_parameters)]
-fn ___action0<
+fn __action0<
 >(
-    (_, ___0, _): (i64, Tree, i64),
+    (_, __0, _): (i64, Tree, i64),
 ) -> Tree
 {
-    ___0
+    __0
 }
 
 #[allow(clippy::too_many_arguments, clippy::needless_lifetimes, clippy::just_underscores_and_digits, clippy::extra_unused_type_parameters)]
-fn ___action1<
+fn __action1<
 >(
-    (_, __2, _): (i64, i64, i64),
-    (_, __3, _): (i64, Tok, i64),
-    (_, __result, _): (i64, Tree, i64),
-    (_, ____0, _): (i64, i64, i64),
+    (_, l, _): (i64, i64, i64),
+    (_, c0, _): (i64, Tree, i64),
+    (_, c1, _): (i64, Tree, i64),
+    (_, c2, _): (i64, Tok, i64),
+    (_, r, _): (i64, i64, i64),
 ) -> Tree
 {
-    node("__start#0", __2, ____0, vec![Tree::from(__3), Tree::from(__result)])
+    node("S#0", l, r, vec![Tree::from(c0), Tree::from(c1), Tree::from(c2)])
 }
 
 #[allow(clippy::too_many_arguments, clippy::needless_lifetimes, clippy::just_underscores_and_digits, clippy::extra_unused_type_parameters)]
-fn ___action2<
+fn __action2<
 >(
-    (_, __2, _): (i64, i64, i64),
-    (_, __3, _): (i64, Tok, i64),
-    (_, ____0, _): (i64, i64, i64),
+    (_, l, _): (i64, i64, i64),
+    (_, c0, _): (i64, Tok, i64),
+    (_, c1, _): (i64, Tree, i64),
+    (_, r, _): (i64, i64, i64),
 ) -> Tree
 {
-    node("__start#1", __2, ____0, vec![Tree::from(__3)])
+    node("S#1", l, r, vec![Tree::from(c0), Tree::from(c1)])
+}
+
+#[allow(clippy::too_many_arguments, clippy::needless_lifetimes, clippy::just_underscores_and_digits, clippy::extra_unused_type_parameters)]
+fn __action3<
+>(
+    (_, l, _): (i64, i64, i64),
+    (_, c0, _): (i64, Tree, i64),
+    (_, c1, _): (i64, Tok, i64),
+    (_, c2, _): (i64, Tree, i64),
+    (_, r, _): (i64, i64, i64),
+) -> Tree
+{
+    node("X#0", l, r, vec![Tree::from(c0), Tree::from(c1), Tree::from(c2)])
+}
+
+#[allow(clippy::too_many_arguments, clippy::needless_lifetimes, clippy::just_underscores_and_digits, clippy::extra_unused_type_parameters)]
+fn __action4<
+>(
+    (_, l, _): (i64, i64, i64),
+    (_, c0, _): (i64, Tree, i64),
+    (_, c1, _): (i64, Tree, i64),
+    (_, r, _): (i64, i64, i64),
+) -> Tree
+{
+    node("Y#0", l, r, vec![Tree::from(c0), Tree::from(c1)])
+}
+
+#[allow(clippy::too_many_arguments, clippy::needless_lifetimes, clippy::just_underscores_and_digits, clippy::extra_unused_type_parameters)]
+fn __action5<
+>(
+    (_, l, _): (i64, i64, i64),
+    (_, c0, _): (i64, Tok, i64),
+    (_, c1, _): (i64, Tok, i64),
+    (_, r, _): (i64, i64, i64),
+) -> Tree
+{
+    node("Z#0", l, r, vec![Tree::from(c0), Tree::from(c1)])
+}
+
+#[allow(clippy::too_many_arguments, clippy::needless_lifetimes, clippy::just_underscores_and_digits, clippy::extra_unused_type_parameters)]
+fn __action6<
+>(
+    (_, l, _): (i64, i64, i64),
+    (_, c0, _): (i64, Tok, i64),
+    (_, r, _): (i64, i64, i64),
+) -> Tree
+{
+    node("Z#1", l, r, vec![Tree::from(c0)])
 }
 
 #[allow(clippy::needless_lifetimes, clippy::clone_on_copy)]
-fn ___action3<
+fn __action7<
 >(
-    ___lookbehind: &i64,
-    ___lookahead: &i64,
+    __lookbehind: &i64,
+    __lookahead: &i64,
 ) -> i64
 {
-    ___lookbehind.clone()
+    __lookbehind.clone()
 }
 
 #[allow(clippy::needless_lifetimes, clippy::clone_on_copy)]
-fn ___action4<
+fn __action8<
 >(
-    ___lookbehind: &i64,
-    ___lookahead: &i64,
+    __lookbehind: &i64,
+    __lookahead: &i64,
 ) -> i64
 {
-    ___lookahead.clone()
+    __lookahead.clone()
 }
 
 #[allow(clippy::too_many_arguments, clippy::needless_lifetimes,
     clippy::just_underscores_and_digits, clippy::clone_on_copy, clippy::unit_arg)]
-fn ___action5<
+fn __action9<
 >(
-    ___0: (i64, Tok, i64),
-    ___1: (i64, Tree, i64),
-    ___2: (i64, i64, i64),
+    __0: (i64, Tree, i64),
+    __1: (i64, Tree, i64),
+    __2: (i64, Tok, i64),
+    __3: (i64, i64, i64),
 ) -> Tree
 {
-    let ___start0 = ___0.0.clone();
-    let ___end0 = ___0.0.clone();
-    let ___temp0 = ___action4(
-        &___start0,
-        &___end0,
+    let __start0 = __0.0.clone();
+    let __end0 = __0.0.clone();
+    let __temp0 = __action8(
+        &__start0,
+        &__end0,
     );
-    let ___temp0 = (___start0, ___temp0, ___end0);
-    ___action1(
-        ___temp0,
-        ___0,
-        ___1,
-        ___2,
+    let __temp0 = (__start0, __temp0, __end0);
+    __action1(
+        __temp0,
+        __0,
+        __1,
+        __2,
+        __3,
     )
 }
 
 #[allow(clippy::too_many_arguments, clippy::needless_lifetimes,
     clippy::just_underscores_and_digits, clippy::clone_on_copy, clippy::unit_arg)]
-fn ___action6<
+fn __action10<
 >(
-    ___0: (i64, Tok, i64),
-    ___1: (i64, i64, i64),
+    __0: (i64, Tok, i64),
+    __1: (i64, Tree, i64),
+    __2: (i64, i64, i64),
 ) -> Tree
 {
-    let ___start0 = ___0.0.clone();
-    let ___end0 = ___0.0.clone();
-    let ___temp0 = ___action4(
-        &___start0,
-        &___end0,
+    let __start0 = __0.0.clone();
+    let __end0 = __0.0.clone();
+    let __temp0 = __action8(
+        &__start0,
+        &__end0,
     );
-    let ___temp0 = (___start0, ___temp0, ___end0);
-    ___action2(
-        ___temp0,
-        ___0,
-        ___1,
+    let __temp0 = (__start0, __temp0, __end0);
+    __action2(
+        __temp0,
+        __0,
+        __1,
+        __2,
     )
 }
 
 #[allow(clippy::too_many_arguments, clippy::needless_lifetimes,
     clippy::just_underscores_and_digits, clippy::clone_on_copy, clippy::unit_arg)]
-fn ___action7<
+fn __action11<
 >(
-    ___0: (i64, Tok, i64),
-    ___1: (i64, Tree, i64),
+    __0: (i64, Tree, i64),
+    __1: (i64, Tok, i64),
+    __2: (i64, Tree, i64),
+    __3: (i64, i64, i64),
 ) -> Tree
 {
-    let ___start0 = ___1.2.clone();
-    let ___end0 = ___1.2.clone();
-    let ___temp0 = ___action3(
-        &___start0,
-        &___end0,
+    let __start0 = __0.0.clone();
+    let __end0 = __0.0.clone();
+    let __temp0 = __action8(
+        &__start0,
+        &__end0,
     );
-    let ___temp0 = (___start0, ___temp0, ___end0);
-    ___action5(
-        ___0,
-        ___1,
-        ___temp0,
+    let __temp0 = (__start0, __temp0, __end0);
+    __action3(
+        __temp0,
+        __0,
+        __1,
+        __2,
+        __3,
     )
 }
 
 #[allow(clippy::too_many_arguments, clippy::needless_lifetimes,
     clippy::just_underscores_and_digits, clippy::clone_on_copy, clippy::unit_arg)]
-fn ___action8<
+fn __action12<
 >(
-    ___0: (i64, Tok, i64),
+    __0: (i64, Tree, i64),
+    __1: (i64, Tree, i64),
+    __2: (i64, i64, i64),
 ) -> Tree
 {
-    let ___start0 = ___0.2.clone();
-    let ___end0 = ___0.2.clone();
-    let ___temp0 = ___action3(
-        &___start0,
-        &___end0,
+    let __start0 = __0.0.clone();
+    let __end0 = __0.0.clone();
+    let __temp0 = __action8(
+        &__start0,
+        &__end0,
     );
-    let ___temp0 = (___start0, ___temp0, ___end0);
-    ___action6(
-        ___0,
-        ___temp0,
+    let __temp0 = (__start0, __temp0, __end0);
+    __action4(
+        __temp0,
+        __0,
+        __1,
+        __2,
+    )
+}
+
+#[allow(clippy::too_many_arguments, clippy::needless_lifetimes,
+    clippy::just_underscores_and_digits, clippy::clone_on_copy, clippy::unit_arg)]
+fn __action13<
+>(
+    __0: (i64, Tok, i64),
+    __1: (i64, Tok, i64),
+    __2: (i64, i64, i64),
+) -> Tree
+{
+    let __start0 = __0.0.clone();
+    let __end0 = __0.0.clone();
+    let __temp0 = __action8(
+        &__start0,
+        &__end0,
+    );
+    let __temp0 = (__start0, __temp0, __end0);
+    __action5(
+        __temp0,
+        __0,
+        __1,
+        __2,
+    )
+}
+
+#[allow(clippy::too_many_arguments, clippy::needless_lifetimes,
+    clippy::just_underscores_and_digits, clippy::clone_on_copy, clippy::unit_arg)]
+fn __action14<
+>(
+    __0: (i64, Tok, i64),
+    __1: (i64, i64, i64),
+) -> Tree
+{
+    let __start0 = __0.0.clone();
+    let __end0 = __0.0.clone();
+    let __temp0 = __action8(
+        &__start0,
+        &__end0,
+    );
+    let __temp0 = (__start0, __temp0, __end0);
+    __action6(
+        __temp0,
+        __0,
+        __1,
+    )
+}
+
+#[allow(clippy::too_many_arguments, clippy::needless_lifetimes,
+    clippy::just_underscores_and_digits, clippy::clone_on_copy, clippy::unit_arg)]
+fn __action15<
+>(
+    __0: (i64, Tree, i64),
+    __1: (i64, Tree, i64),
+    __2: (i64, Tok, i64),
+) -> Tree
+{
+    let __start0 = __2.2.clone();
+    let __end0 = __2.2.clone();
+    let __temp0 = __action7(
+        &__start0,
+        &__end0,
+    );
+    let __temp0 = (__start0, __temp0, __end0);
+    __action9(
+        __0,
+        __1,
+        __2,
+        __temp0,
+    )
+}
+
+#[allow(clippy::too_many_arguments, clippy::needless_lifetimes,
+    clippy::just_underscores_and_digits, clippy::clone_on_copy, clippy::unit_arg)]
+fn __action16<
+>(
+    __0: (i64, Tok, i64),
+    __1: (i64, Tree, i64),
+) -> Tree
+{
+    let __start0 = __1.2.clone();
+    let __end0 = __1.2.clone();
+    let __temp0 = __action7(
+        &__start0,
+        &__end0,
+    );
+    let __temp0 = (__start0, __temp0, __end0);
+    __action10(
+        __0,
+        __1,
+        __temp0,
+    )
+}
+
+#[allow(clippy::too_many_arguments, clippy::needless_lifetimes,
+    clippy::just_underscores_and_digits, clippy::clone_on_copy, clippy::unit_arg)]
+fn __action17<
+>(
+    __0: (i64, Tree, i64),
+    __1: (i64, Tok, i64),
+    __2: (i64, Tree, i64),
+) -> Tree
+{
+    let __start0 = __2.2.clone();
+    let __end0 = __2.2.clone();
+    let __temp0 = __action7(
+        &__start0,
+        &__end0,
+    );
+    let __temp0 = (__start0, __temp0, __end0);
+    __action11(
+        __0,
+        __1,
+        __2,
+        __temp0,
+    )
+}
+
+#[allow(clippy::too_many_arguments, clippy::needless_lifetimes,
+    clippy::just_underscores_and_digits, clippy::clone_on_copy, clippy::unit_arg)]
+fn __action18<
+>(
+    __0: (i64, Tree, i64),
+    __1: (i64, Tree, i64),
+) -> Tree
+{
+    let __start0 = __1.2.clone();
+    let __end0 = __1.2.clone();
+    let __temp0 = __action7(
+        &__start0,
+        &__end0,
+    );
+    let __temp0 = (__start0, __temp0, __end0);
+    __action12(
+        __0,
+        __1,
+        __temp0,
+    )
+}
+
+#[allow(clippy::too_many_arguments, clippy::needless_lifetimes,
+    clippy::just_underscores_and_digits, clippy::clone_on_copy, clippy::unit_arg)]
+fn __action19<
+>(
+    __0: (i64, Tok, i64),
+    __1: (i64, Tok, i64),
+) -> Tree
+{
+    let __start0 = __1.2.clone();
+    let __end0 = __1.2.clone();
+    let __temp0 = __action7(
+        &__start0,
+        &__end0,
+    );
+    let __temp0 = (__start0, __temp0, __end0);
+    __action13(
+        __0,
+        __1,
+        __temp0,
+    )
+}
+
+#[allow(clippy::too_many_arguments, clippy::needless_lifetimes,
+    clippy::just_underscores_and_digits, clippy::clone_on_copy, clippy::unit_arg)]
+fn __action20<
+>(
+    __0: (i64, Tok, i64),
+) -> Tree
+{
+    let __start0 = __0.2.clone();
+    let __end0 = __0.2.clone();
+    let __temp0 = __action7(
+        &__start0,
+        &__end0,
+    );
+    let __temp0 = (__start0, __temp0, __end0);
+    __action14(
+        __0,
+        __temp0,
+    )
+}
+
+#[allow(clippy::too_many_arguments, clippy::needless_lifetimes,
+    clippy::just_underscores_and_digits, clippy::clone_on_copy, clippy::unit_arg)]
+fn __action21<
+>(
+    __0: (i64, Tree, i64),
+    __1: (i64, Tree, i64),
+    __2: (i64, Tok, i64),
+    __3: (i64, Tree, i64),
+    __4: (i64, Tree, i64),
+) -> Tree
+{
+    let __start0 = __0.0.clone();
+    let __end0 = __1.2.clone();
+    let __start1 = __3.0.clone();
+    let __end1 = __4.2.clone();
+    let __temp0 = __action18(
+        __0,
+        __1,
+    );
+    let __temp0 = (__start0, __temp0, __end0);
+    let __temp1 = __action18(
+        __3,
+        __4,
+    );
+    let __temp1 = (__start1, __temp1, __end1);
+    __action17(
+        __temp0,
+        __2,
+        __temp1,
+    )
+}
+
+#[allow(clippy::too_many_arguments, clippy::needless_lifetimes,
+    clippy::just_underscores_and_digits, clippy::clone_on_copy, clippy::unit_arg)]
+fn __action22<
+>(
+    __0: (i64, Tree, i64),
+    __1: (i64, Tree, i64),
+    __2: (i64, Tok, i64),
+    __3: (i64, Tree, i64),
+    __4: (i64, Tree, i64),
+    __5: (i64, Tree, i64),
+    __6: (i64, Tree, i64),
+    __7: (i64, Tok, i64),
+    __8: (i64, Tree, i64),
+    __9: (i64, Tree, i64),
+    __10: (i64, Tok, i64),
+) -> Tree
+{
+    let __start0 = __0.0.clone();
+    let __end0 = __4.2.clone();
+    let __start1 = __5.0.clone();
+    let __end1 = __9.2.clone();
+    let __temp0 = __action21(
+        __0,
+        __1,
+        __2,
+        __3,
+        __4,
+    );
+    let __temp0 = (__start0, __temp0, __end0);
+    let __temp1 = __action21(
+        __5,
+        __6,
+        __7,
+        __8,
+        __9,
+    );
+    let __temp1 = (__start1, __temp1, __end1);
+    __action15(
+        __temp0,
+        __temp1,
+        __10,
+    )
+}
+
+#[allow(clippy::too_many_arguments, clippy::needless_lifetimes,
+    clippy::just_underscores_and_digits, clippy::clone_on_copy, clippy::unit_arg)]
+fn __action23<
+>(
+    __0: (i64, Tok, i64),
+    __1: (i64, Tree, i64),
+    __2: (i64, Tree, i64),
+    __3: (i64, Tok, i64),
+    __4: (i64, Tree, i64),
+    __5: (i64, Tree, i64),
+) -> Tree
+{
+    let __start0 = __1.0.clone();
+    let __end0 = __5.2.clone();
+    let __temp0 = __action21(
+        __1,
+        __2,
+        __3,
+        __4,
+        __5,
+    );
+    let __temp0 = (__start0, __temp0, __end0);
+    __action16(
+        __0,
+        __temp0,
     )
 }
 
 #[allow(clippy::type_complexity, dead_code)]
-pub trait ___ToTriple<>
+pub trait __ToTriple<>
 {
-    fn to_triple(self) -> Result<(i64,Tok,i64), ___lalrpop_util::ParseError<i64, Tok, u64>>;
+    fn to_triple(self) -> Result<(i64,Tok,i64), __lalrpop_util::ParseError<i64, Tok, u64>>;
 }
 
-impl<> ___ToTriple<> for (i64, Tok, i64)
+impl<> __ToTriple<> for (i64, Tok, i64)
 {
-    fn to_triple(self) -> Result<(i64,Tok,i64), ___lalrpop_util::ParseError<i64, Tok, u64>> {
+    fn to_triple(self) -> Result<(i64,Tok,i64), __lalrpop_util::ParseError<i64, Tok, u64>> {
         Ok(self)
     }
 }
-impl<> ___ToTriple<> for Result<(i64, Tok, i64), u64>
+impl<> __ToTriple<> for Result<(i64, Tok, i64), u64>
 {
-    fn to_triple(self) -> Result<(i64,Tok,i64), ___lalrpop_util::ParseError<i64, Tok, u64>> {
-        self.map_err(|error| ___lalrpop_util::ParseError::User { error })
+    fn to_triple(self) -> Result<(i64,Tok,i64), __lalrpop_util::ParseError<i64, Tok, u64>> {
+        self.map_err(|error| __lalrpop_util::ParseError::User { error })
     }
 }
